@@ -90,6 +90,46 @@ func (t *MemTable) Snapshot() map[string]string {
 	return out
 }
 
+// FailingTable wraps a real mutable table module (e.g. table.sql_table) with the
+// same write-failure injection as MemTable; everything else is delegated.
+type FailingTable struct {
+	Inst     string
+	Inner    module.MutableTable
+	mu       sync.Mutex
+	FailNext bool
+}
+
+func (t *FailingTable) Name() string             { return "table.veriffailing" }
+func (t *FailingTable) InstanceName() string     { return t.Inst }
+func (t *FailingTable) Init(_ *config.Map) error { return nil }
+func (t *FailingTable) Lookup(ctx context.Context, k string) (string, bool, error) {
+	return t.Inner.Lookup(ctx, k)
+}
+func (t *FailingTable) Keys() ([]string, error) { return t.Inner.Keys() }
+func (t *FailingTable) armed() bool {
+	t.mu.Lock()
+	defer t.mu.Unlock()
+	f := t.FailNext
+	t.FailNext = false
+	return f
+}
+func (t *FailingTable) RemoveKey(k string) error {
+	if t.armed() {
+		return ErrBackend
+	}
+	return t.Inner.RemoveKey(k)
+}
+func (t *FailingTable) SetKey(k, v string) error {
+	if t.armed() {
+		return ErrBackend
+	}
+	return t.Inner.SetKey(k, v)
+}
+func (t *FailingTable) SetFail(f bool) { t.mu.Lock(); t.FailNext = f; t.mu.Unlock() }
+
+// SetFail arms / disarms the failure of the next write.
+func (t *MemTable) SetFail(f bool) { t.mu.Lock(); t.FailNext = f; t.mu.Unlock() }
+
 // ---- module plumbing ----------------------------------------------------------
 
 // RegisterReady puts an already initialised module instance into maddy's
